@@ -38,12 +38,20 @@ class PacketSeqCtrl:
     """
 
     def __init__(self, seq_flags: SequenceFlags, seq_count: int):
+        self.seq_count = seq_count
+        self.seq_flags = seq_flags
+
+    @property
+    def seq_count(self) -> int:
+        return self._seq_count
+
+    @seq_count.setter
+    def seq_count(self, seq_count: int):
         if seq_count > MAX_SEQ_COUNT or seq_count < 0:
             raise ValueError(
                 f"Sequence count larger than allowed {pow(2, 14) - 1} or negative"
             )
-        self.seq_flags = seq_flags
-        self.seq_count = seq_count
+        self._seq_count = seq_count
 
     def __repr__(self):
         return (
@@ -88,13 +96,21 @@ class PacketId:
     space packet header."""
 
     def __init__(self, ptype: PacketType, sec_header_flag: bool, apid: int):
+        self.apid = apid
+        self.ptype = ptype
+        self.sec_header_flag = sec_header_flag
+
+    @property
+    def apid(self) -> int:
+        return self._apid
+
+    @apid.setter
+    def apid(self, apid: int):
         if apid > pow(2, 11) - 1 or apid < 0:
             raise ValueError(
                 f"Invalid APID, exceeds maximum value {pow(2, 11) - 1} or negative"
             )
-        self.ptype = ptype
-        self.sec_header_flag = sec_header_flag
-        self.apid = apid
+        self._apid = apid
 
     @classmethod
     def empty(cls):
@@ -213,17 +229,25 @@ class SpacePacketHeader(AbstractSpacePacket):
         :param seq_flags:
         :raises ValueError: On invalid parameters
         """
-        if data_len > pow(2, 16) - 1 or data_len < 0:
-            raise ValueError(
-                "Invalid data length value, exceeds maximum value of"
-                f" {pow(2, 16) - 1} or negative"
-            )
+        self.data_len = data_len
         self._ccsds_version = ccsds_version
         self._packet_id = PacketId(
             ptype=packet_type, sec_header_flag=sec_header_flag, apid=apid
         )
         self._psc = PacketSeqCtrl(seq_flags=seq_flags, seq_count=seq_count)
-        self.data_len = data_len
+
+    @property
+    def data_len(self) -> int:
+        return self._data_len
+
+    @data_len.setter
+    def data_len(self, data_len: int):
+        if data_len > pow(2, 16) - 1 or data_len < 0:
+            raise ValueError(
+                "Invalid data length value, exceeds maximum value of"
+                f" {pow(2, 16) - 1} or negative"
+            )
+        self._data_len = data_len
 
     @classmethod
     def from_composite_fields(
